@@ -92,7 +92,7 @@ class RunResult:
 def _write_case_file(path: str, module: str, prelude: str, cases: list[Case]) -> None:
     with open(path, "w") as f:
         f.write("From Coq Require Import ZArith NArith List Bool String.\n")
-        f.write(f"From PM Require Import Model.Data Corr.Common {module}.\n")
+        f.write(f"From PM Require Import Model.Data Model.Mark Model.Tree Corr.Common {module}.\n")
         f.write("Import ListNotations.\nOpen Scope Z_scope.\n")
         f.write(prelude + "\n")
         schemas: dict[str, str] = {}
